@@ -1092,7 +1092,7 @@ static std::vector<std::string> raw_tokens_small() {
           "xn--999999999999", EACUTE, "\xEF\xBF\xBD", "\xF0\x9F\x98\x80"};
 }
 static std::vector<std::string> idna_tokens() {
-  return {"xn--", "a", "-", ".", "1", "z", "9", "A", EACUTE, "\xC3\x9F", "\xCC\x81", "\xE2\x80\x8C", "\xD7\x90", "\xD8\xA7", "\xE3\x80\x82", "\xEA\xB0\x80",
+  return {"xn--", "a", "-", ".", "1", "z", "9", "A", EACUTE, "\xC3\x9F", "\xCC\x81", "\xE2\x80\x8C", "\xD7\x90", "\xD8\xA7", "\xE3\x80\x82", "\xEA\xB0\x80", "\xED\x95\x9C",
           "\xF0\x9F\x98\x80", "\x80", "\xFF", "\xED\xA0\x80", "%", std::string(1, '\0')};
 }
 static std::vector<std::string> pat_tokens() {
@@ -1100,7 +1100,7 @@ static std::vector<std::string> pat_tokens() {
           ":", "//", "http:", "%", " ", "#", "@"};
 }
 static std::vector<char32_t> cp_alphabet() {
-  return {0x0, 0x61, 0x41, 0x2D, 0x2E, 0x7F, 0x80, 0xDF, 0xE9, 0x301, 0x323, 0x344, 0x200C, 0x200D, 0x5D0, 0x627, 0x660, 0x94D, 0xAC00, 0x1100, 0x1161, 0x11A8,
+  return {0x0, 0x61, 0x41, 0x2D, 0x2E, 0x7F, 0x80, 0xDF, 0xE9, 0x301, 0x323, 0x344, 0x200C, 0x200D, 0x5D0, 0x627, 0x660, 0x94D, 0xAC00, 0xAC01, 0xD55C, 0x1100, 0x1161, 0x11A8,
           0xD800, 0xDFFF, 0xFFFD, 0xFFFF, 0x10000, 0x1F600, 0x2F800, 0xFB01, 0x3002, 0x10FFFF, 0x110000, 0x7FFFFFFF, 0xFFFFFFFF};
 }
 static std::vector<std::string> state_menu(bool thorough) {
